@@ -3,7 +3,8 @@ package types
 // Harness for property C09 at the door: the stateless validation of the two messages that carry schedules. The schedule
 // algebra (reads are non-decreasing, vested + unvested = original, nothing negative) rests on every period having a
 // positive length and a well-formed, non-negative amount; the message server only compares totals. An accepted message
-// therefore carries only such periods - a negative period compensated by the others must not get through.
+// therefore carries only such periods - a negative period compensated by the others must not get through - and the period
+// lengths add up to an end time that fits an int64.
 
 import (
 	"math/big"
@@ -24,7 +25,7 @@ func c09mPeriods(tag string, n int) sdkvesting.Periods {
 		t := tag + string(rune('0'+i))
 		amt := zz.AnySdkInt(t + ".amt")
 		zz.Assume(amt.Abs().LT(c09mBound)) // sums near 2^256 make the validation panic (Int overflow), which rejects the transaction too
-		ps = append(ps, sdkvesting.Period{Length: zz.AnyInt64In(t+".len", -1, 1<<36), Amount: sdk.Coins{sdk.Coin{Denom: "aISLM", Amount: amt}}})
+		ps = append(ps, sdkvesting.Period{Length: zz.AnyInt64In(t+".len", -1, 1<<62), Amount: sdk.Coins{sdk.Coin{Denom: "aISLM", Amount: amt}}})
 	}
 	return ps
 }
@@ -48,6 +49,12 @@ func VerifC09_MessagePeriods() {
 		for _, p := range ps {
 			zz.Assert(p.Length >= 1, "an accepted message has only periods of positive length")
 			zz.Assert(p.Amount[0].Amount.IsPositive(), "an accepted message has only periods with a positive, well-formed amount (nothing negative hidden behind the totals)")
+		}
+		// the end of the schedule is start + the lengths, added up in int64 when the account is stored and read
+		end := int64(1700000000)
+		for _, p := range ps {
+			zz.Assert(p.Length <= 9223372036854775807-end, "an accepted message has schedules whose end time fits an int64 (no wrapped end time)")
+			end += p.Length
 		}
 	}
 	zz.Reach("accepted")
